@@ -1,5 +1,7 @@
 package rpc
 
+import "time"
+
 // ---- C18: waiters are woken, time out, or are released by Close; nobody is stranded ----
 
 // zzH_C18w: N callers enter while no target is live; then one of: the target becomes healthy,
@@ -103,4 +105,41 @@ func zzH_C18f() {
 	_ = inList
 	c.Close()
 	vReach("end")
+}
+
+// zzH_C18c: Close against callers that are about to wait. DialTimeout is modelled as "very long"
+// (one-shot timers never fire), so a caller that is not released by Close stays blocked and shows up
+// in the terminal state. Every caller must return, with ErrShutdown.
+func zzH_C18c() {
+	N := vParam("c18.N", 1)
+	rt := &zzRT{up: map[string]bool{"a": false}}
+	c := NewClient(nil)
+	c.Transport = rt
+	c.Update("a")
+	vSetClockStep(1)
+	vSetTimerBudget(vParam("c18.ticks", 1))
+	vSetOneShotTimers(false)
+	if !vSymbolic() {
+		c.DialTimeout = 3 * time.Second
+	}
+	errs := make([]error, N)
+	returned := make([]bool, N)
+	for i := 0; i < N; i++ {
+		i := i
+		vGo("caller", func() {
+			errs[i] = c.Call("S.M", nil, nil)
+			returned[i] = true
+		})
+	}
+	vYield()
+	c.Close()
+	vAtEnd(func() {
+		for i := 0; i < N; i++ {
+			vAssert(returned[i], "no-caller-stranded")
+			if returned[i] {
+				vAssert(errs[i] == ErrShutdown, "released-by-close-with-ErrShutdown")
+			}
+		}
+		vReach("end")
+	})
 }
